@@ -753,65 +753,85 @@ fn s_pick_next_two() {
 /// unless the blocking OF THAT SIDE allows bypass AND the packet may bypass (the other side's flag,
 /// possibly left over from an earlier block there, is arbitrary); blocking ends with exactly one
 /// BlockingEnd at its expiry.
-fn pick_next_blocked(is_client: bool) {
-    let t0 = any_instant();
-    let none: &[Machine] = &[];
-    let mut client = state_with(none, t0);
-    let mut server = state_with(none, t0);
-    let mut network = crate::network::verif_kani::small_bottleneck(Network::new(Duration::from_micros(1000), None), Duration::from_secs(1), usize::MAX, Duration::ZERO);
-    let mut sq = empty_queue();
-    let s1: u64 = kani::any();
-    let s2: u64 = kani::any();
-    kani::assume(s1 <= 1000 && s2 <= 1000);
-    let until = t0 + Duration::from_secs(s1);
-    client.blocking_bypassable = kani::any();
-    server.blocking_bypassable = kani::any();
-    if is_client {
-        client.blocking_until = Some(until);
-    } else {
-        server.blocking_until = Some(until);
+fn pick_next_blocked(is_client: bool, only_case: u64) {
+    // instants are concrete (three orderings of "packet time" vs "blocking expiry" in a loop whose
+    // induction variable is concrete, so the time arithmetic folds); every flag is symbolic
+    #[repr(C)]
+    struct TS {
+        secs: i64,
+        nanos: u32,
     }
-    let bypassable = if is_client { client.blocking_bypassable } else { server.blocking_bypassable };
-    let pkt_time = t0 + Duration::from_secs(s2);
-    let (pkt_bypass, padding): (bool, bool) = (kani::any(), kani::any());
-    sq.push_sim(SimEvent { event: TriggerEvent::TunnelSent, time: pkt_time, integration_delay: Duration::ZERO, client: is_client,
-        contains_padding: padding, bypass: pkt_bypass, replace: false, debug_note: None });
-    let next = pick_next(&mut sq, &mut client, &mut server, &mut network, t0);
-    assert!(next.is_some(), "C19: with a queued packet there is a next event");
-    let next = next.unwrap();
-    assert!(next.time >= t0 && next.client == is_client, "C19: simulated time never moves backwards");
-    let side_until = if is_client { client.blocking_until } else { server.blocking_until };
-    if next.event == TriggerEvent::TunnelSent {
-        let may_bypass = bypassable && pkt_bypass;
-        assert!(may_bypass || next.time >= until, "C16: nothing leaves a blocked side before the blocking ends unless that side's blocking allows bypass and the packet may bypass");
-        assert!(next.time >= pkt_time && (next.time == pkt_time || next.time == until), "C15: a packet leaves at its own time or when the blocking that held it ends");
-        assert!(next.contains_padding == padding && sq.len() == 0, "C15: the packet that leaves is the packet that was queued");
-    } else {
-        assert!(next.event == TriggerEvent::BlockingEnd && next.time == until, "C16: the end of blocking is reported by BlockingEnd exactly at the expiry");
-        assert!(side_until.is_none() && sq.len() == 1, "C16: after BlockingEnd the side is no longer blocked and the waiting packet is still queued");
+    let t0 = unsafe { core::mem::transmute::<TS, Instant>(TS { secs: 1 << 21, nanos: 0 }) };
+    let until = t0 + Duration::from_secs(5);
+    let mut seen_bypass = false;
+    let mut seen_held = false;
+    let mut case = only_case;
+    while case <= only_case {
+        // packet queued before, exactly at, or after the expiry of the blocking
+        let pkt_time = t0 + Duration::from_secs(2 + 3 * case);
+        let none: &[Machine] = &[];
+        let mut client = state_with(none, t0);
+        let mut server = state_with(none, t0);
+        let mut network = crate::network::verif_kani::small_bottleneck(Network::new(Duration::from_micros(1000), None), Duration::from_secs(1), usize::MAX, Duration::ZERO);
+        let mut sq = empty_queue();
+        client.blocking_bypassable = kani::any();
+        server.blocking_bypassable = kani::any();
+        if is_client {
+            client.blocking_until = Some(until);
+        } else {
+            server.blocking_until = Some(until);
+        }
+        let bypassable = if is_client { client.blocking_bypassable } else { server.blocking_bypassable };
+        let (pkt_bypass, padding): (bool, bool) = (kani::any(), kani::any());
+        sq.push_sim(SimEvent { event: TriggerEvent::TunnelSent, time: pkt_time, integration_delay: Duration::ZERO, client: is_client,
+            contains_padding: padding, bypass: pkt_bypass, replace: false, debug_note: None });
+        let next = pick_next(&mut sq, &mut client, &mut server, &mut network, t0);
+        assert!(next.is_some(), "C19: with a queued packet there is a next event");
+        let next = next.unwrap();
+        assert!(next.time >= t0 && next.client == is_client, "C19: simulated time never moves backwards");
+        let side_until = if is_client { client.blocking_until } else { server.blocking_until };
+        if next.event == TriggerEvent::TunnelSent {
+            let may_bypass = bypassable && pkt_bypass;
+            assert!(may_bypass || next.time >= until, "C16: nothing leaves a blocked side before the blocking ends unless that side's blocking allows bypass and the packet may bypass");
+            assert!(next.time >= pkt_time && (next.time == pkt_time || next.time == until), "C15: a packet leaves at its own time or when the blocking that held it ends");
+            assert!(next.contains_padding == padding && sq.len() == 0, "C15: the packet that leaves is the packet that was queued");
+            seen_bypass |= next.time < until;
+        } else {
+            assert!(next.event == TriggerEvent::BlockingEnd && next.time == until, "C16: the end of blocking is reported by BlockingEnd exactly at the expiry");
+            assert!(side_until.is_none() && sq.len() == 1, "C16: after BlockingEnd the side is no longer blocked and the waiting packet is still queued");
+            seen_held |= case == 0;
+        }
+        core::mem::forget(sq);
+        core::mem::forget(client);
+        core::mem::forget(server);
+        core::mem::forget(network);
+        core::mem::forget(next);
+        case += 1;
     }
-    kani::cover!(next.event == TriggerEvent::TunnelSent && s2 < s1, "packet bypassed active blocking");
-    kani::cover!(next.event == TriggerEvent::BlockingEnd && s2 < s1, "packet held back until BlockingEnd");
-    core::mem::forget(sq);
-    core::mem::forget(client);
-    core::mem::forget(server);
-    core::mem::forget(network);
-    core::mem::forget(next);
+    if only_case == 0 {
+        kani::cover!(seen_bypass, "packet bypassed active blocking");
+        kani::cover!(seen_held, "packet held back until BlockingEnd");
+    } else {
+        kani::cover!(!seen_bypass, "nothing left before the expiry");
+    }
 }
-#[kani::proof]
-#[kani::unwind(3)]
-#[kani::stub(alloc::fmt::format, format_stub)]
-#[kani::stub(rand::thread_rng, no_thread_rng)]
-fn s_pick_next_blocked_client() {
-    pick_next_blocked(true);
+macro_rules! pnb {
+    ($name:ident, $client:expr, $case:expr) => {
+        #[kani::proof]
+        #[kani::unwind(3)]
+        #[kani::stub(alloc::fmt::format, format_stub)]
+        #[kani::stub(rand::thread_rng, no_thread_rng)]
+        fn $name() {
+            pick_next_blocked($client, $case);
+        }
+    };
 }
-#[kani::proof]
-#[kani::unwind(3)]
-#[kani::stub(alloc::fmt::format, format_stub)]
-#[kani::stub(rand::thread_rng, no_thread_rng)]
-fn s_pick_next_blocked_server() {
-    pick_next_blocked(false);
-}
+pnb!(s_pick_next_blocked_client_before, true, 0);
+pnb!(s_pick_next_blocked_server_before, false, 0);
+pnb!(s_pick_next_blocked_client_at, true, 1);
+pnb!(s_pick_next_blocked_server_at, false, 1);
+pnb!(s_pick_next_blocked_client_after, true, 2);
+pnb!(s_pick_next_blocked_server_after, false, 2);
 
 // ------------------------------------------------------------------------------------------
 // C15: the "all normal packets processed" stop condition; C19: aggregate-delay bookkeeping is total
